@@ -5,11 +5,15 @@ use vstd::prelude::*;
 verus! {
 /*@include shims/rt.rs @*/
 /*@include shims/decimal.rs @*/
+/*@include shims/indexmap_c42.rs @*/
+/*@include shims/ledger_sdk_c42.rs @*/
 
 pub mod env {
     use vstd::prelude::*;
     use super::decimal::*;
     use super::decimal::Decimal;
+    use super::omap42::*;
+    use super::ledger::*;
     // ---- payload types of error variants that this unit never constructs (opaque) ----
     pub struct KernelError;
     pub struct SystemError;
@@ -44,11 +48,52 @@ pub mod env {
     @derive
     @*/
 
-    #[derive(Clone, Copy)]
-    pub struct NodeId(pub [u8; 30]);
-    /// radix-common: `pub struct ComponentAddress(NodeId)`
-    #[derive(Clone, Copy)]
-    pub struct ComponentAddress(pub NodeId);
+    pub struct Secp256k1PublicKey(pub [u8; 33]);
+    /// opaque stand-in for alloc BTreeMap (only a field type of ValidatorSubstate here)
+    #[verifier::external_body]
+    #[verifier::reject_recursive_types(K)]
+    #[verifier::reject_recursive_types(V)]
+    pub struct BTreeMap<K, V> { _k: core::marker::PhantomData<(K, V)> }
+    /*@item radix-common/src/types/node_and_substate.rs :: type SortedKey
+    @*/
+    /*@item radix-engine/src/blueprints/consensus_manager/validator.rs :: struct ValidatorFeeChangeRequest
+    @derive
+    @*/
+    /*@item radix-engine/src/blueprints/consensus_manager/validator.rs :: struct ValidatorSubstate
+    @derive
+    @*/
+    /*@item radix-engine-interface/src/blueprints/consensus_manager/invocations.rs :: struct EpochChangeCondition
+    @derive
+    @*/
+    /*@item radix-engine-interface/src/blueprints/consensus_manager/invocations.rs :: struct ConsensusManagerConfig
+    @derive
+    @*/
+    /*@item radix-engine/src/blueprints/consensus_manager/consensus_manager.rs :: struct Validator
+    @derive
+    @*/
+    /*@item radix-engine/src/blueprints/consensus_manager/consensus_manager.rs :: struct ValidatorRewardsSubstate
+    @derive
+    @*/
+    /*@item radix-engine/src/blueprints/consensus_manager/consensus_manager.rs :: struct ActiveValidatorSet
+    @derive
+    @*/
+    pub const VALIDATOR_APPLY_EMISSION_IDENT: &'static str = /*@expr-after radix-engine-interface/src/blueprints/consensus_manager/invocations.rs :: const VALIDATOR_APPLY_EMISSION_IDENT :: <<&str =>> @*/;
+    pub const VALIDATOR_APPLY_REWARD_IDENT: &'static str = /*@expr-after radix-engine-interface/src/blueprints/consensus_manager/invocations.rs :: const VALIDATOR_APPLY_REWARD_IDENT :: <<&str =>> @*/;
+    /*@item radix-engine-interface/src/blueprints/consensus_manager/invocations.rs :: struct ValidatorApplyEmissionInput
+    @derive
+    @*/
+    /*@item radix-engine-interface/src/blueprints/consensus_manager/invocations.rs :: struct ValidatorApplyRewardInput
+    @derive
+    @*/
+    /// `#[derive(ScryptoSbor)]`: the encoded value carries exactly the fields
+    impl ScryptoEncode for ValidatorApplyEmissionInput {
+        open spec fn as_args(&self) -> CallArgs {
+            CallArgs::ApplyEmission { bucket: self.xrd_bucket.0, epoch: self.epoch, made: self.proposals_made, missed: self.proposals_missed }
+        }
+    }
+    impl ScryptoEncode for ValidatorApplyRewardInput {
+        open spec fn as_args(&self) -> CallArgs { CallArgs::ApplyReward { bucket: self.xrd_bucket.0, epoch: self.epoch } }
+    }
 
     /*@item radix-engine/src/blueprints/consensus_manager/consensus_manager.rs :: struct ProposalStatistic
     @derive
@@ -65,6 +110,8 @@ pub mod unit {
     use super::env::*;
     use super::decimal::*;
     use super::decimal::Decimal;
+    use super::omap42::*;
+    use super::ledger::*;
     broadcast use group_decimal;
 
     // ------------------------------------------------------------------------------------------
@@ -152,6 +199,281 @@ pub mod unit {
         }
     }
 
+
+    // ------------------------------------------------------------------------------------------
+    // Epoch-end accounting: oracle.  A ghost record per APPLICABLE validator (stake > 0), in set order.
+    // ------------------------------------------------------------------------------------------
+    pub ghost struct GInfo { pub idx: int, pub addr: ComponentAddress, pub stake: int, pub eff: int, pub made: u64, pub missed: u64 }
+    pub type VSet = Seq<(ComponentAddress, Validator)>;
+    /// the applicable validators among the first n of the concluded epoch's set, with their effective stake
+    pub open spec fn ginfos(vs: VSet, stats: Seq<ProposalStatistic>, min: int, n: int) -> Seq<GInfo>
+        decreases n
+    {
+        if n <= 0 { Seq::empty() } else {
+            let prev = ginfos(vs, stats, min, n - 1);
+            let i = n - 1;
+            if vs[i].1.stake.v() > 0 {
+                prev.push(GInfo { idx: i, addr: vs[i].0, stake: vs[i].1.stake.v(),
+                    eff: effective_stake(vs[i].1.stake.v(), stats[i].made as int, stats[i].missed as int, min),
+                    made: stats[i].made, missed: stats[i].missed })
+            } else { prev }
+        }
+    }
+    pub open spec fn g_wf(g: Seq<GInfo>) -> bool {
+        &&& forall|j: int| 0 <= j < g.len() ==> (#[trigger] g[j]).stake > 0 && 0 <= g[j].eff <= g[j].stake && 0 <= g[j].idx < 256
+        &&& forall|j: int, k: int| 0 <= j < k < g.len() ==> (#[trigger] g[j]).idx < (#[trigger] g[k]).idx
+    }
+    pub open spec fn sum_stake(g: Seq<GInfo>, n: int) -> int decreases n { if n <= 0 { 0 } else { sum_stake(g, n - 1) + g[n - 1].stake } }
+    pub open spec fn sum_eff(g: Seq<GInfo>, n: int) -> int decreases n { if n <= 0 { 0 } else { sum_eff(g, n - 1) + g[n - 1].eff } }
+    /// sum over the first n validators of  trunc(effective stake * rate)
+    pub open spec fn sum_em(g: Seq<GInfo>, rate: int, n: int) -> int decreases n { if n <= 0 { 0 } else { sum_em(g, rate, n - 1) + fmul(g[n - 1].eff, rate) } }
+    pub type PRew = Map<ValidatorIndex, Decimal>;
+    /// the proposer reward recorded for validator index idx (0 when there is no entry)
+    pub open spec fn prv(pr: PRew, idx: int) -> int { if pr.contains_key(idx as u8) { pr[idx as u8].v() } else { 0 } }
+    pub open spec fn sum_pr(g: Seq<GInfo>, pr: PRew, n: int) -> int decreases n { if n <= 0 { 0 } else { sum_pr(g, pr, n - 1) + prv(pr, g[n - 1].idx) } }
+    /// all recorded proposer rewards of the indices below n
+    pub open spec fn pr_total(pr: PRew, n: int) -> int decreases n { if n <= 0 { 0 } else { pr_total(pr, n - 1) + prv(pr, n - 1) } }
+    /// (a) "how much XRD is emitted by 1 XRD staked": the configured amount over the applicable stake, rounded down
+    pub open spec fn emission_rate(total_emission: int, g: Seq<GInfo>) -> int { fdiv(total_emission, sum_stake(g, g.len() as int)) }
+    /// (a) emission of one validator: its effective (reliability-scaled) stake times the rate, rounded down
+    pub open spec fn emission_of(x: GInfo, rate: int) -> int { fmul(x.eff, rate) }
+    /// (b) reward per unit of effective stake: what the vault holds beyond the proposers' shares, over the effective stake
+    pub open spec fn reward_rate(vault: int, g: Seq<GInfo>, pr: PRew) -> int {
+        let te = sum_eff(g, g.len() as int);
+        if te == 0 { 0 } else { fdiv(vault - sum_pr(g, pr, g.len() as int), te) }
+    }
+    pub open spec fn reward_of(x: GInfo, pr: PRew, rate: int) -> int { prv(pr, x.idx) + fmul(x.eff, rate) }
+
+    /// the two proposer-reward maps agree on every index from lo on
+    pub open spec fn pr_agree(cur: PRew, pr0: PRew, lo: int) -> bool {
+        forall|k: ValidatorIndex| #![trigger cur.contains_key(k)] #![trigger cur[k]] k as int >= lo ==> cur.contains_key(k) == pr0.contains_key(k) && cur[k] == pr0[k]
+    }
+    pub open spec fn rep1(kv: (ValidatorIndex, ValidatorInfo), x: GInfo) -> bool {
+        &&& kv.0 as int == x.idx && kv.1.address == x.addr && kv.1.stake_xrd.v() == x.stake && kv.1.effective_stake_xrd.v() == x.eff
+        &&& kv.1.proposal_statistic.made == x.made && kv.1.proposal_statistic.missed == x.missed
+    }
+    pub open spec fn rep(e: Seq<(ValidatorIndex, ValidatorInfo)>, g: Seq<GInfo>) -> bool {
+        &&& e.len() == g.len()
+        &&& forall|j: int| 0 <= j < g.len() ==> rep1(#[trigger] e[j], g[j])
+    }
+    /// the call the consensus manager makes to hand validator x its emission
+    pub open spec fn em_call_ok(c: CallRec, x: GInfo, rate: int, epoch: Epoch) -> bool {
+        &&& c.receiver == x.addr.0 && c.method == VALIDATOR_APPLY_EMISSION_IDENT@
+        &&& c.args matches CallArgs::ApplyEmission { epoch: e, made, missed, .. } && e == epoch && made == x.made && missed == x.missed
+        &&& c.resource == XRD && c.amount == emission_of(x, rate)
+    }
+    pub open spec fn rw_call_ok(c: CallRec, x: GInfo, amount: int, epoch: Epoch, res: ResourceAddress) -> bool {
+        &&& c.receiver == x.addr.0 && c.method == VALIDATOR_APPLY_REWARD_IDENT@
+        &&& c.args matches CallArgs::ApplyReward { epoch: e, .. } && e == epoch
+        &&& c.resource == res && c.amount == amount
+    }
+    /// the reward calls for the first n applicable validators: one per validator with a non-zero reward, in order
+    pub open spec fn rw_calls_ok(log: Seq<CallRec>, g: Seq<GInfo>, pr: PRew, rate: int, epoch: Epoch, res: ResourceAddress, n: int) -> bool
+        decreases n
+    {
+        if n <= 0 { log.len() == 0 } else {
+            let t = reward_of(g[n - 1], pr, rate);
+            if t == 0 { rw_calls_ok(log, g, pr, rate, epoch, res, n - 1) }
+            else { log.len() > 0 && rw_call_ok(log.last(), g[n - 1], t, epoch, res) && rw_calls_ok(log.drop_last(), g, pr, rate, epoch, res, n - 1) }
+        }
+    }
+    /// invariant of the rewards substate, kept by the fee finalisation of every transaction (system_callback.rs adds
+    /// to_proposer + to_validator_set to the vault and to_proposer to the leader's entry) and by this function
+    pub open spec fn rewards_wf(pr: PRew, vault: int) -> bool {
+        &&& forall|k: ValidatorIndex| pr.contains_key(k) ==> (#[trigger] pr[k]).v() >= 0
+        &&& pr_total(pr, 256) <= vault
+    }
+
+    /// C42 (a)+(b): what a successful epoch-end accounting did
+    pub open spec fn accounting_post(s0: ApiState, s2: ApiState, g: Seq<GInfo>, total_emission: int, pr0: PRew, rv: Own, epoch: Epoch) -> bool {
+        let n = g.len() as int;
+        let rate = emission_rate(total_emission, g);
+        let minted = sum_em(g, rate, n);
+        let vault = s0.world.vaults[rv].amount.v();
+        let rrate = reward_rate(vault, g, pr0);
+        let paid = sum_pr(g, pr0, n) + sum_em(g, rrate, n);
+        let c0 = s0.calls.len() as int;
+        &&& sum_stake(g, n) > 0
+        // (a) XRD is minted once, exactly the sum of the per-validator emissions, never more than configured
+        &&& s2.world.supply[XRD] == Some(Decimal::of(s0.world.supply[XRD]->Some_0.v() + minted))
+        &&& 0 <= minted && (total_emission >= 0 ==> minted <= total_emission)
+        // every minted XRD went to a validator: no bucket is left behind
+        &&& s2.world.buckets =~= s0.world.buckets
+        // (b) rewards come out of the vault only: it shrinks by exactly what was paid, and is never overdrawn
+        &&& s2.world.vaults.contains_key(rv) && s0.world.vaults.contains_key(rv)
+        &&& s2.world.vaults[rv] == Holding { resource: s0.world.vaults[rv].resource, amount: Decimal::of(vault - paid) }
+        &&& 0 <= paid <= vault
+        // who got what
+        &&& s2.calls.len() >= c0 + n && s2.calls.subrange(0, c0) =~= s0.calls
+        &&& forall|j: int| 0 <= j < n ==> em_call_ok(#[trigger] s2.calls[c0 + j], g[j], rate, epoch)
+        &&& rw_calls_ok(s2.calls.subrange(c0 + n, s2.calls.len() as int), g, pr0, rrate, epoch, s0.world.vaults[rv].resource, n)
+        &&& s2.vstate == s0.vstate && s2.handles == s0.handles && s2.actor_vaults == s0.actor_vaults
+    }
+
+    // ---------------------------------------------------------------- lemmas: sums
+    pub proof fn lemma_fmul_floor(a: int, b: int)
+        requires a >= 0, b >= 0
+        ensures fmul(a, b) >= 0, fmul(a, b) * e18() <= a * b, fmul(a, b) == (a * b) / e18()
+    {
+        assert(a * b >= 0) by (nonlinear_arith) requires a >= 0, b >= 0;
+        let n = a * b;
+        assert(0 <= (n / e18()) * e18() <= n) by (nonlinear_arith) requires n >= 0;
+        assert(n / e18() >= 0) by (nonlinear_arith) requires n >= 0;
+    }
+    pub proof fn lemma_fdiv_floor(a: int, b: int)
+        requires a >= 0, b > 0
+        ensures fdiv(a, b) >= 0, fdiv(a, b) * b <= a * e18(), fdiv(a, b) == (a * e18()) / b
+    {
+        assert(a * e18() >= 0) by (nonlinear_arith) requires a >= 0;
+        let n = a * e18();
+        assert(0 <= (n / b) * b <= n) by (nonlinear_arith) requires n >= 0, b > 0;
+        assert(n / b >= 0) by (nonlinear_arith) requires n >= 0, b > 0;
+    }
+    pub proof fn lemma_ginfos_wf(vs: VSet, stats: Seq<ProposalStatistic>, min: int, n: int)
+        requires 0 <= n <= vs.len(), n <= stats.len(), n <= 256
+        ensures g_wf(ginfos(vs, stats, min, n)), ginfos(vs, stats, min, n).len() <= n,
+                forall|j: int| 0 <= j < ginfos(vs, stats, min, n).len() ==> (#[trigger] ginfos(vs, stats, min, n)[j]).idx < n,
+        decreases n
+    {
+        if n > 0 {
+            lemma_ginfos_wf(vs, stats, min, n - 1);
+            let i = n - 1;
+            if vs[i].1.stake.v() > 0 {
+                lemma_success_ratio_range(stats[i].made as int, stats[i].missed as int);
+                lemma_reliability_factor_range(success_ratio(stats[i].made as int, stats[i].missed as int), min);
+                lemma_fmul_unit_factor(vs[i].1.stake.v(), reliability_factor(success_ratio(stats[i].made as int, stats[i].missed as int), min));
+            }
+        }
+    }
+    pub proof fn lemma_sum_stake_prefix(a: Seq<GInfo>, b: Seq<GInfo>, n: int)
+        requires 0 <= n <= a.len(), n <= b.len(), forall|k: int| 0 <= k < n ==> a[k] == b[k]
+        ensures sum_stake(a, n) == sum_stake(b, n)
+        decreases n
+    {
+        if n > 0 { lemma_sum_stake_prefix(a, b, n - 1); }
+    }
+    pub proof fn lemma_sums_bounds(g: Seq<GInfo>, n: int)
+        requires g_wf(g), 0 <= n <= g.len()
+        ensures 0 <= sum_eff(g, n) <= sum_stake(g, n), n > 0 ==> sum_stake(g, n) > 0
+        decreases n
+    {
+        if n > 0 { lemma_sums_bounds(g, n - 1); }
+    }
+    /// the truncated shares never add up to more than rate * (sum of effective stakes)
+    pub proof fn lemma_sum_em(g: Seq<GInfo>, rate: int, n: int)
+        requires g_wf(g), 0 <= n <= g.len(), rate >= 0
+        ensures 0 <= sum_em(g, rate, n), sum_em(g, rate, n) * e18() <= rate * sum_eff(g, n),
+                n > 0 ==> sum_em(g, rate, n - 1) <= sum_em(g, rate, n),
+        decreases n
+    {
+        if n > 0 {
+            lemma_sum_em(g, rate, n - 1);
+            let x = g[n - 1];
+            lemma_fmul_floor(x.eff, rate);
+            let a = sum_em(g, rate, n - 1); let b = fmul(x.eff, rate); let se = sum_eff(g, n - 1);
+            assert((a + b) * e18() <= rate * (se + x.eff)) by (nonlinear_arith)
+                requires a * e18() <= rate * se, b * e18() <= x.eff * rate;
+        }
+    }
+    pub proof fn lemma_mono(g: Seq<GInfo>, pr: PRew, rate: int, a: int, b: int)
+        requires g_wf(g), 0 <= a <= b <= g.len(), rate >= 0, forall|k: ValidatorIndex| pr.contains_key(k) ==> (#[trigger] pr[k]).v() >= 0
+        ensures sum_em(g, rate, a) <= sum_em(g, rate, b), sum_pr(g, pr, a) <= sum_pr(g, pr, b), 0 <= sum_pr(g, pr, a)
+        decreases b
+    {
+        if a < b {
+            lemma_mono(g, pr, rate, a, b - 1);
+            lemma_sum_em(g, rate, b);
+        } else {
+            lemma_sum_pr_nonneg(g, pr, a);
+        }
+    }
+    pub proof fn lemma_sum_pr_nonneg(g: Seq<GInfo>, pr: PRew, n: int)
+        requires 0 <= n <= g.len(), forall|k: ValidatorIndex| pr.contains_key(k) ==> (#[trigger] pr[k]).v() >= 0
+        ensures 0 <= sum_pr(g, pr, n)
+        decreases n
+    {
+        if n > 0 { lemma_sum_pr_nonneg(g, pr, n - 1); }
+    }
+    pub proof fn lemma_pr_total_mono(pr: PRew, a: int, b: int)
+        requires 0 <= a <= b, forall|k: ValidatorIndex| pr.contains_key(k) ==> (#[trigger] pr[k]).v() >= 0
+        ensures 0 <= pr_total(pr, a) <= pr_total(pr, b)
+        decreases b
+    {
+        if a < b { lemma_pr_total_mono(pr, a, b - 1); }
+        else if a > 0 { lemma_pr_total_mono(pr, a - 1, a - 1); }
+    }
+    /// the proposer rewards of the applicable validators are part of all recorded proposer rewards
+    pub proof fn lemma_sum_pr_le_total(g: Seq<GInfo>, pr: PRew, n: int)
+        requires g_wf(g), 0 <= n <= g.len(), forall|k: ValidatorIndex| pr.contains_key(k) ==> (#[trigger] pr[k]).v() >= 0
+        ensures sum_pr(g, pr, n) <= pr_total(pr, if n == 0 { 0 } else { g[n - 1].idx + 1 })
+        decreases n
+    {
+        if n > 0 {
+            lemma_sum_pr_le_total(g, pr, n - 1);
+            let lo = if n - 1 == 0 { 0 } else { g[n - 2].idx + 1 };
+            assert(lo <= g[n - 1].idx);
+            lemma_pr_total_mono(pr, lo, g[n - 1].idx);
+        }
+    }
+    /// (a) the emissions add up to no more than the configured amount (rounding is downwards, twice)
+    pub proof fn lemma_emissions_bounded(g: Seq<GInfo>, total: int)
+        requires g_wf(g), g.len() > 0, total >= 0
+        ensures ({
+            let n = g.len() as int; let rate = emission_rate(total, g);
+            &&& rate >= 0 && 0 <= sum_em(g, rate, n) <= total
+        })
+    {
+        let n = g.len() as int; let t = sum_stake(g, n); let rate = fdiv(total, t);
+        lemma_sums_bounds(g, n);
+        lemma_fdiv_floor(total, t);
+        lemma_sum_em(g, rate, n);
+        let m = sum_em(g, rate, n); let se = sum_eff(g, n);
+        assert(rate * se <= rate * t) by (nonlinear_arith) requires rate >= 0, se <= t;
+        assert(m <= total) by (nonlinear_arith) requires m * e18() <= rate * se, rate * se <= rate * t, rate * t <= total * e18();
+    }
+    /// (a) one validator never gets more than its pro-rata share  total * stake / total_stake
+    pub proof fn lemma_emission_pro_rata(g: Seq<GInfo>, total: int, j: int)
+        requires g_wf(g), 0 <= j < g.len(), total >= 0
+        ensures 0 <= emission_of(g[j], emission_rate(total, g)),
+                emission_of(g[j], emission_rate(total, g)) * sum_stake(g, g.len() as int) <= total * g[j].stake,
+    {
+        let n = g.len() as int; let t = sum_stake(g, n); let rate = fdiv(total, t); let x = g[j];
+        lemma_sums_bounds(g, n);
+        lemma_fdiv_floor(total, t);
+        lemma_fmul_floor(x.eff, rate);
+        let e = fmul(x.eff, rate);
+        assert(e * e18() <= x.stake * rate) by (nonlinear_arith) requires e * e18() <= x.eff * rate, x.eff <= x.stake, rate >= 0;
+        assert((e * t) * e18() <= (total * x.stake) * e18()) by (nonlinear_arith)
+            requires e * e18() <= x.stake * rate, rate * t <= total * e18(), t > 0, x.stake > 0, e >= 0;
+        assert(e * t <= total * x.stake) by (nonlinear_arith) requires (e * t) * e18() <= (total * x.stake) * e18();
+    }
+    /// (b) proposer shares plus stake-proportional shares never exceed the vault
+    pub proof fn lemma_rewards_bounded(g: Seq<GInfo>, pr: PRew, vault: int)
+        requires g_wf(g), rewards_wf(pr, vault)
+        ensures ({
+            let n = g.len() as int; let rate = reward_rate(vault, g, pr);
+            &&& rate >= 0 && 0 <= sum_pr(g, pr, n) <= vault
+            &&& 0 <= sum_em(g, rate, n) && sum_pr(g, pr, n) + sum_em(g, rate, n) <= vault
+        })
+    {
+        let n = g.len() as int; let p = sum_pr(g, pr, n); let te = sum_eff(g, n);
+        lemma_sum_pr_nonneg(g, pr, n);
+        lemma_sum_pr_le_total(g, pr, n);
+        let hi = if n == 0 { 0 } else { g[n - 1].idx + 1 };
+        lemma_pr_total_mono(pr, hi, 256);
+        lemma_sums_bounds(g, n);
+        let rate = reward_rate(vault, g, pr);
+        if te != 0 {
+            lemma_fdiv_floor(vault - p, te);
+            lemma_sum_em(g, rate, n);
+            let m = sum_em(g, rate, n);
+            assert(m <= vault - p) by (nonlinear_arith) requires m * e18() <= rate * te, rate * te <= (vault - p) * e18();
+        } else {
+            lemma_sum_em(g, 0, n);
+            assert(0 * te == 0);
+        }
+    }
+
     impl ProposalStatistic {
         // NOTE `self.made + self.missed` is a plain u64 addition (panics in debug builds, wraps in release builds);
         // the counters are bumped once per consensus round, so the sum is assumed to stay below 2^64.
@@ -206,6 +528,250 @@ pub mod unit {
                 if stake_xrd.v() > 0 {
                     lemma_fmul_unit_factor(stake_xrd.v(), reliability_factor(ratio, min_required_reliability.v()));
                 }
+            }
+        @*/
+    }
+
+    pub struct ConsensusManagerBlueprint;
+    impl ConsensusManagerBlueprint {
+        /*@fn radix-engine/src/blueprints/consensus_manager/consensus_manager.rs :: impl ConsensusManagerBlueprint :: fn apply_validator_emissions_and_rewards
+        @sig
+            requires
+                // "We made sure no more than u8::MAX validators are stored" (ValidatorIndex = u8)
+                validator_set.validators_by_stake_desc.entries().len() <= 256,
+                // CurrentProposalStatisticSubstate: one statistic per validator of the set, in the same order
+                validator_statistics@.len() >= validator_set.validators_by_stake_desc.entries().len(),
+                forall|i: int| 0 <= i < validator_statistics@.len() ==> (#[trigger] validator_statistics@[i]).made as int + validator_statistics@[i].missed as int <= u64::MAX as int,
+                // XRD tracks its total supply; the rewards vault belongs to the consensus manager component
+                old(api).st().world.supply[XRD] is Some,
+                old(api).st().actor_vaults.contains(old(validator_rewards).rewards_vault.0),
+                old(api).st().world.vaults.contains_key(old(validator_rewards).rewards_vault.0) ==>
+                    rewards_wf(old(validator_rewards).proposer_rewards.map(), old(api).st().world.vaults[old(validator_rewards).rewards_vault.0].amount.v()),
+            ensures
+                ret is Ok ==> ({
+                    let g = ginfos(validator_set.validators_by_stake_desc.entries(), validator_statistics@, config.min_validator_reliability.v(),
+                                   validator_set.validators_by_stake_desc.entries().len() as int);
+                    &&& g_wf(g)
+                    &&& g.len() == 0 ==> final(api).st() == old(api).st() && *final(validator_rewards) == *old(validator_rewards)
+                    &&& g.len() > 0 ==> {
+                        &&& accounting_post(old(api).st(), final(api).st(), g, config.total_emission_xrd_per_epoch.v(),
+                                old(validator_rewards).proposer_rewards.map(), old(validator_rewards).rewards_vault.0, epoch)
+                        &&& final(validator_rewards).proposer_rewards.map() == Map::<ValidatorIndex, Decimal>::empty()
+                        &&& final(validator_rewards).rewards_vault == old(validator_rewards).rewards_vault
+                    }
+                }),
+        @entry
+            let ghost vs = validator_set.validators_by_stake_desc.entries();
+            let ghost stats = validator_statistics@;
+            let ghost min = config.min_validator_reliability.v();
+            let ghost total = config.total_emission_xrd_per_epoch.v();
+            let ghost s0 = api.st();
+            let ghost pr0 = validator_rewards.proposer_rewards.map();
+            let ghost rv = validator_rewards.rewards_vault.0;
+            let ghost c0 = s0.calls.len() as int;
+        @loop 1 iter it1
+            invariant
+                vs.len() <= 256, stats.len() >= vs.len(), stats == validator_statistics@, min == config.min_validator_reliability.v(),
+                forall|i: int| 0 <= i < stats.len() ==> (#[trigger] stats[i]).made as int + stats[i].missed as int <= u64::MAX as int,
+                it1.seq().len() == vs.len(),
+                forall|i: int| 0 <= i < vs.len() ==> (#[trigger] it1.seq()[i]).0 == i && it1.seq()[i].1 == vs[i],
+                rep(validator_infos.entries(), ginfos(vs, stats, min, it1.index@ as int)),
+                stake_sum_xrd.v() == sum_stake(ginfos(vs, stats, min, it1.index@ as int), ginfos(vs, stats, min, it1.index@ as int).len() as int),
+                api.st() == s0, *validator_rewards == *old(validator_rewards),
+        @before <<if let Some(info) = ValidatorInfo::create_if_applicable(>> #1
+            let ghost i1 = it1.index@ as int;
+            let ghost g1 = ginfos(vs, stats, min, i1);
+            proof {
+                assert(it1.seq()[i1].0 == i1 && it1.seq()[i1].1 == vs[i1]);
+                assert(index == i1 && address == vs[i1].0 && validator == vs[i1].1);
+                lemma_ginfos_wf(vs, stats, min, i1);
+                assert(ginfos(vs, stats, min, i1 + 1) == if vs[i1].1.stake.v() > 0 {
+                        g1.push(GInfo { idx: i1, addr: vs[i1].0, stake: vs[i1].1.stake.v(),
+                            eff: effective_stake(vs[i1].1.stake.v(), stats[i1].made as int, stats[i1].missed as int, min),
+                            made: stats[i1].made, missed: stats[i1].missed }) } else { g1 });
+            }
+        @before <<validator_infos.insert(>> #1
+            proof {
+                let e1 = validator_infos.entries();
+                assert(!has_key(e1, index as u8)) by {
+                    if has_key(e1, index as u8) {
+                        let k = key_index(e1, index as u8);
+                        assert(rep1(e1[k], g1[k]));
+                        assert(g1[k].idx < i1);
+                    }
+                }
+                let g2 = ginfos(vs, stats, min, i1 + 1);
+                lemma_sum_stake_prefix(g1, g2, g1.len() as int);
+            }
+        @before <<if validator_infos.is_empty()>> #1
+            let ghost n = vs.len() as int;
+            let ghost g = ginfos(vs, stats, min, n);
+            proof { lemma_ginfos_wf(vs, stats, min, n); }
+        @before <<let emission_per_staked_xrd>> #1
+            proof { lemma_sums_bounds(g, g.len() as int); }
+        @before <<let effective_total_emission_xrd>> #1
+            let ghost rate = emission_per_staked_xrd.v();
+            let ghost gl = g.len() as int;
+            proof { assert(rate == emission_rate(total, g)); }
+        @loop 2 iter it2
+            invariant
+                g_wf(g), gl == g.len(), rep(validator_infos.entries(), g), rate == emission_per_staked_xrd.v(),
+                it2.seq().len() == gl,
+                forall|i: int| 0 <= i < gl ==> *(#[trigger] it2.seq()[i]) == validator_infos.entries()[i].1,
+                sum.v() == sum_em(g, rate, it2.index@ as int),
+                api.st() == s0, *validator_rewards == *old(validator_rewards),
+        @before <<let emission = v>> #1
+            proof { let j = it2.index@ as int; assert(*it2.seq()[j] == validator_infos.entries()[j].1); assert(rep1(validator_infos.entries()[j], g[j])); }
+        @before <<let total_emission_xrd_bucket>> #1
+            let ghost minted = effective_total_emission_xrd.v();
+        @before <<for validator_info in validator_infos.values()>> #1
+            let ghost tb = total_emission_xrd_bucket.0.0;
+            let ghost s1 = api.st();
+            let ghost sup0 = s0.world.supply[XRD]->Some_0.v();
+            proof {
+                assert(Decimal::of(minted).v() == minted);
+                assert(Decimal::of(minted) == effective_total_emission_xrd);
+                assert(sum_em(g, rate, 0) == 0);
+            }
+        @loop 3 iter it3
+            invariant
+                g_wf(g), gl == g.len(), rep(validator_infos.entries(), g), rate == emission_per_staked_xrd.v(), minted == sum_em(g, rate, gl),
+                it3.seq().len() == gl,
+                forall|i: int| 0 <= i < gl ==> *(#[trigger] it3.seq()[i]) == validator_infos.entries()[i].1,
+                tb == total_emission_xrd_bucket.0.0, !s0.world.buckets.contains_key(tb), c0 == s0.calls.len(),
+                api.st().world.buckets =~= s0.world.buckets.insert(tb, Holding { resource: XRD, amount: Decimal::of(minted - sum_em(g, rate, it3.index@ as int)) }),
+                in_dec(minted - sum_em(g, rate, it3.index@ as int)),
+                api.st().world.supply[XRD] == Some(Decimal::of(sup0 + minted)),
+                s0.actor_vaults.contains(rv),
+                api.st().world.vaults.contains_key(rv) == s0.world.vaults.contains_key(rv), api.st().world.vaults[rv] == s0.world.vaults[rv],
+                api.st().vstate == s0.vstate, api.st().handles == s0.handles, api.st().actor_vaults == s0.actor_vaults,
+                api.st().calls.len() == c0 + it3.index@, api.st().calls.subrange(0, c0) =~= s0.calls,
+                forall|j: int| 0 <= j < it3.index@ ==> em_call_ok(#[trigger] api.st().calls[c0 + j], g[j], rate, epoch),
+                *validator_rewards == *old(validator_rewards),
+        @before <<let emission_xrd_bucket>> #1
+            let ghost j3 = it3.index@ as int;
+            let ghost sa = api.st();
+            proof { assert(*it3.seq()[j3] == validator_infos.entries()[j3].1); assert(rep1(validator_infos.entries()[j3], g[j3])); }
+        @after <<let emission_xrd_bucket>> #1
+            let ghost sc = api.st();
+            let ghost eb = emission_xrd_bucket.0.0;
+            proof {
+                assert(sc.world.vaults == sa.world.vaults);
+                assert(sc.actor_vaults.contains(rv));
+                assert(sc.world.buckets.contains_key(eb));
+            }
+        @after <<VALIDATOR_APPLY_EMISSION_IDENT>> #1
+            proof {
+                assert(api.st().world.vaults[rv] == sc.world.vaults[rv]);
+                let e = emission_of(g[j3], rate);
+                let rest = minted - sum_em(g, rate, j3);
+                assert(sa.world.buckets[tb].amount.v() == rest);
+                assert(eb != tb);
+                assert(0 <= e <= rest);
+                assert(api.st().world.buckets =~= s0.world.buckets.insert(tb, Holding { resource: XRD, amount: Decimal::of(rest - e) }));
+                assert(api.st().calls.subrange(0, c0) =~= sa.calls.subrange(0, c0));
+            }
+        @after <<total_emission_xrd_bucket.drop_empty(api)>> #1
+            let ghost s3 = api.st();
+            proof {
+                assert(s3.world.buckets =~= s0.world.buckets);
+                assert(minted == sum_em(g, rate, gl));
+            }
+        @loop 4 iter it4
+            invariant
+                g_wf(g), gl == g.len(), rep(validator_infos.entries(), g),
+                it4.seq().len() == gl,
+                forall|i: int| 0 <= i < gl ==> *(#[trigger] it4.seq()[i]).0 == validator_infos.entries()[i].0 && *it4.seq()[i].1 == validator_infos.entries()[i].1,
+                total_effective_stake.v() == sum_eff(g, it4.index@ as int),
+                total_claimable_proposer_rewards.v() == sum_pr(g, pr0, it4.index@ as int),
+                api.st() == s3, *validator_rewards == *old(validator_rewards), pr0 == old(validator_rewards).proposer_rewards.map(),
+        @before <<total_effective_stake = total_effective_stake>> #1
+            proof { let j = it4.index@ as int; assert(*it4.seq()[j].0 == validator_infos.entries()[j].0 && *it4.seq()[j].1 == validator_infos.entries()[j].1); assert(rep1(validator_infos.entries()[j], g[j])); }
+        @before <<let reward_per_effective_stake>> #1
+            let ghost vault = s0.world.vaults[rv].amount.v();
+            proof {
+                assert(s0.world.vaults.contains_key(rv));
+                lemma_rewards_bounded(g, pr0, vault);
+            }
+        @before <<for (index, validator_info) in validator_infos>> #1
+            let ghost rrate = reward_per_effective_stake.v();
+            let ghost e5 = validator_infos.entries();
+            let ghost res = s0.world.vaults[rv].resource;
+            proof {
+                assert(s3.world.vaults[rv] == s0.world.vaults[rv]);
+                assert(Decimal::of(vault).v() == vault);
+                assert(Decimal::of(vault) == s0.world.vaults[rv].amount);
+                assert(sum_pr(g, pr0, 0) + sum_em(g, rrate, 0) == 0);
+                assert(rrate == reward_rate(vault, g, pr0));
+                assert(s3.calls.subrange(c0 + gl, s3.calls.len() as int) =~= Seq::<CallRec>::empty());
+            }
+        @subst <<continue; }>> => <<} else { proof { assert(0 <= total_rewards.v() <= api.st().world.vaults[rv].amount.v()); }>> why: (the woven assert is the obligation (b): the reward vault is never overdrawn -- what is due never exceeds what the vault still holds) Verus rejects `continue` inside a for-loop ("for-loops do not yet support continue"); `if c { continue; } REST` at the top level of the loop body is rewritten to `if c { } else { REST }` (this subst opens the else-block, the next one closes it at the end of the loop body); control flow is unchanged
+        @subst <<} validator_rewards.proposer_rewards.clear();>> => <<} } validator_rewards.proposer_rewards.clear();>> why: closing brace of the else-block opened by the previous subst (end of the body of the reward loop)
+        @loop 5 iter it5
+            invariant
+                g_wf(g), gl == g.len(), rep(e5, g), it5.seq() == e5, rrate == reward_per_effective_stake.v(), rrate >= 0,
+                rewards_wf(pr0, vault), sum_pr(g, pr0, gl) + sum_em(g, rrate, gl) <= vault,
+                vault == s0.world.vaults[rv].amount.v(), res == s0.world.vaults[rv].resource, in_dec(vault),
+                rv == validator_rewards.rewards_vault.0, validator_rewards.rewards_vault == old(validator_rewards).rewards_vault,
+                pr_agree(validator_rewards.proposer_rewards.map(), pr0, if it5.index@ == 0 { 0 } else { g[it5.index@ - 1].idx + 1 }),
+                s0.world.supply[XRD] is Some, sup0 == s0.world.supply[XRD]->Some_0.v(), c0 == s0.calls.len(),
+                api.st().world.buckets =~= s0.world.buckets,
+                api.st().world.supply[XRD] == Some(Decimal::of(sup0 + minted)),
+                s0.actor_vaults.contains(rv), s0.world.vaults.contains_key(rv), api.st().world.vaults.contains_key(rv),
+                api.st().world.vaults[rv] == (Holding { resource: res, amount: Decimal::of(vault - (sum_pr(g, pr0, it5.index@ as int) + sum_em(g, rrate, it5.index@ as int))) }),
+                0 <= sum_pr(g, pr0, it5.index@ as int) + sum_em(g, rrate, it5.index@ as int) <= vault,
+                api.st().vstate == s0.vstate, api.st().handles == s0.handles, api.st().actor_vaults == s0.actor_vaults,
+                api.st().calls.len() >= c0 + gl, api.st().calls.subrange(0, c0) =~= s0.calls,
+                forall|j: int| 0 <= j < gl ==> em_call_ok(#[trigger] api.st().calls[c0 + j], g[j], rate, epoch),
+                rw_calls_ok(api.st().calls.subrange(c0 + gl, api.st().calls.len() as int), g, pr0, rrate, epoch, res, it5.index@ as int),
+        @before <<let as_proposer>> #1
+            let ghost j5 = it5.index@ as int;
+            let ghost sb = api.st();
+            proof {
+                assert(rep1(e5[j5], g[j5]));
+                assert(index as int == g[j5].idx);
+                if j5 > 0 { assert(g[j5 - 1].idx < g[j5].idx); }
+                assert(0 <= g[j5].idx < 256);
+                assert(g[j5].idx as u8 == index);
+                assert(validator_rewards.proposer_rewards.map().contains_key(index) == pr0.contains_key(index));
+                assert(validator_rewards.proposer_rewards.map()[index] == pr0[index]);
+            }
+        @before <<if total_rewards.is_zero()>> #1
+            proof {
+                assert(as_proposer.v() == prv(pr0, g[j5].idx));
+                assert(total_rewards.v() == reward_of(g[j5], pr0, rrate));
+                lemma_mono(g, pr0, rrate, j5 + 1, gl);
+                lemma_mono(g, pr0, rrate, 0, j5 + 1);
+                lemma_fmul_floor(g[j5].eff, rrate);
+            }
+        @after <<VALIDATOR_APPLY_REWARD_IDENT>> #1
+            proof {
+                let t = total_rewards.v();
+                let paid = sum_pr(g, pr0, j5) + sum_em(g, rrate, j5);
+                assert(api.st().world.buckets =~= s0.world.buckets);
+                assert(api.st().world.vaults[rv] == Holding { resource: res, amount: Decimal::of(vault - paid - t) });
+                assert(api.st().calls.subrange(0, c0) =~= sb.calls.subrange(0, c0));
+                let l0 = sb.calls.subrange(c0 + gl, sb.calls.len() as int);
+                let l1 = api.st().calls.subrange(c0 + gl, api.st().calls.len() as int);
+                assert(l1.drop_last() =~= l0);
+                assert(rw_call_ok(l1.last(), g[j5], t, epoch, res));
+            }
+        @before <<Ok(())>> #2
+            proof {
+                let s2 = api.st();
+                let paid = sum_pr(g, pr0, gl) + sum_em(g, rrate, gl);
+                if total >= 0 { lemma_emissions_bounded(g, total); }
+                assert(sum_stake(g, gl) > 0);
+                assert(rate == emission_rate(total, g));
+                assert(minted == sum_em(g, rate, gl));
+                assert(s2.world.supply[XRD] == Some(Decimal::of(sup0 + minted)));
+                assert(0 <= minted);
+                assert(s2.world.buckets =~= s0.world.buckets);
+                assert(s2.world.vaults[rv] == Holding { resource: res, amount: Decimal::of(vault - paid) });
+                assert(0 <= paid <= vault);
+                assert(s2.calls.len() >= c0 + gl && s2.calls.subrange(0, c0) =~= s0.calls);
+                assert(rw_calls_ok(s2.calls.subrange(c0 + gl, s2.calls.len() as int), g, pr0, rrate, epoch, res, gl));
+                assert(accounting_post(s0, s2, g, total, pr0, rv, epoch));
             }
         @*/
     }
